@@ -59,6 +59,12 @@ CLAIMS["C20"] = ("per-refusal GATE/REFUSE under the strict-flag value set (loads
 CLAIMS["C03"] = ("SURFACE (typed API inventory: no exported element outside the backends exposes a private-key type) + OWN (every interface conversion / field selection / serialiser call on a private-key value is in the owner table) + GATE on SignJWS's private-JWK refusal and on the key-name validator (pattern + dot-segment refusal, wrapper methods validate before delegating, all configured backends wrapped, backends never percent-decode names, UUID names for new keys) + ORDER (audit.Log dominates each key operation)",
   "Static decision of the structural conditions that keep private key material inside the key store and key names inside the key namespace. Exhaustive over the current source.",
   "Trusts go/ssa and go/types; that signatures verify with the published key and the run-time contents of logs/SQL rows are not decided.")
+CLAIMS["C07"] = ("must-pass-through (GATE) on the v2 handlers and conversation checks + must-reach (post-dominance) of the fallback requests + dispatch TABLE (message types = switch cases; bound handler consumes the case's type) + argument identity (responses echo the request's conversation id, requests send the registered message) + OWN (add-only shelves, single admission path) + all-paths store check on the gossip queue; the convergence/liveness statement itself is NOT decided",
+  "Static decision of C07's safety clauses (stale/unsolicited responses never touch state, admission only via State.Add, nothing deleted, payloads hash-checked) and of the structural necessary conditions for progress (every handler either is in sync or sends a follow-up, fallbacks exist, conversation ids line up, expired conversations do not block, advertised XOR/clock always refreshed). Exhaustive over the current source; liveness over schedules is declared not decided.",
+  "Trusts go/ssa; convergence in finitely many rounds, IBLT capacity and timer behaviour are not decided.")
+CLAIMS["C12"] = ("must-pass-through (GATE) on the verifier (Validate/Resolve/resolveCredential) and wallet (matchConstraints … matchFilter, matchBasic, Build, submission-requirement rules) + sibling-arm agreement in matchFilter's type switch + index-pairing ORDER rule (k-th mapping ↔ k-th credential, same candidate) + argument identity (Validate returns the re-matched credentials) + whole-content equality; the wallet/verifier agreement relation itself is NOT decided",
+  "Static decision of the structural necessary conditions of Presentation Exchange agreement on both sides; two genuine defects found by these rules were repaired (array values ignored filter.type; duplicate descriptor mappings accepted). Exhaustive over the current source.",
+  "Trusts go/ssa; Match/Validate agreement over generated definitions, JSONPath and regex semantics are not decided. Assumes Build is called with >= 1 wallet.")
 PENDING = {}
 
 def main():
